@@ -75,7 +75,7 @@ cdef class cyBQM_template(cyQMBase):
         return new
 
     def __reduce__(self):
-        ldata, qdata, off, labels = self.to_numpy_vectors(return_labels=True)
+        ldata, qdata, off, labels = self.to_numpy_vectors(sort_labels=False, return_labels=True)
         return (
             type(self).from_numpy_vectors,
             (ldata, qdata, off, self.vartype(), labels))
